@@ -20,9 +20,10 @@ func (consumer *Consumer) Loop() {
 		if consumer.lifecycle.IsKilled() {
 			return
 		}
+		isClosed := consumer.lifecycle.Step() == StepClose
 		if len(consumer.loopData.chans.dirChan) == 0 &&
 			len(consumer.loopData.chans.fileChan) == 0 {
-			if consumer.lifecycle.Step() == StepClose {
+			if isClosed {
 				return
 			}
 			runtime.Gosched()
